@@ -77,9 +77,16 @@
            QuiescentConsistent needs); FALSE: as the code, no exclusion.     *)
 EXTENDS Integers, FiniteSets, Sequences, TLC, Json
 
-CONSTANTS Files, Refreshers, InvalidCountries, InvalidContinents, Serial, Defect, KeepHist,
+CONSTANTS FilesSrc,     \* the database versions of the run (see Files)
+          UseRegister,  \* TRUE in trace validation
+          Refreshers, InvalidCountries, InvalidContinents, Serial, Defect, KeepHist,
           MConfs,       \* the worlds of a model run: [id, hostcap, ipcap, tops, alltop, versA, versC, addrs, hosts, locs]
           MaxPut, MaxRefresh, MaxData
+
+\* The versions are read through a TLC register, which Init fills from the constant FilesSrc: TLC evaluates a
+\* constant that is produced by a Java module (the JSON reader of the trace specification) anew at every use.
+Files == IF UseRegister THEN TLCGet(2) ELSE FilesSrc
+LoadFiles == UseRegister => TLCSet(2, FilesSrc)
 
 Special == {"RU", "US", "CN", "IN"}
 HackASN == 25159
@@ -173,14 +180,15 @@ Decide(loc, ctry, tops, l, fam) ==
         hasTop == l.ctry \in DOMAIN tops
         top == IF hasTop THEN tops[l.ctry] ELSE -1
         eT == Ents(loc, LocKey(top, "", ""))
-        eTany == {e \in loc : e.k.asn = top}
-        eTin == {e \in eTany : e.k.ctry = l.ctry}
+        \* the top ASN's networks in that very country (keys of the special countries carry country and subdivision)
+        eTin == {e \in loc : e.k.asn = top /\ e.k.ctry = l.ctry}
         eC == Ents(ctry, CKey(l.ctry))
         z == {[k |-> CKey(""), p |-> ZeroPfx(fam), c |-> ""]}
-    IN  IF fam = 4 /\ l.asn = HackASN THEN [step |-> "hack", set |-> {[k |-> LocKey(HackASN, "", ""), p |-> HackPfx, c |-> ""]}]
+    IN  IF fam = 4 /\ l.asn = HackASN /\ Ents(loc, LocKey(HackASN, "", "")) # {}
+        THEN [step |-> "hack", set |-> Ents(loc, LocKey(HackASN, "", ""))]
         ELSE IF e1 # {} THEN [step |-> "exact", set |-> e1]
         ELSE IF hasTop /\ eT # {} THEN [step |-> "top", set |-> eT]
-        ELSE IF hasTop /\ eTany # {} THEN [step |-> "top", set |-> IF eTin # {} THEN eTin ELSE eTany]
+        ELSE IF hasTop /\ eTin # {} THEN [step |-> "top", set |-> eTin]
         ELSE IF eC # {} THEN [step |-> "country", set |-> eC]
         ELSE [step |-> "zero", set |-> z]
 \* the decision as file.go takes it (the top ASN is only looked for under the key without a country)
@@ -226,12 +234,12 @@ H(a, r, kind, v, host, ip, zero, l, lp, fam) ==
             ELSE hist
 HR(a, r) == H(a, r, "", 0, "", <<>>, FALSE, NoneLoc, 0, 4)
 
-Fresh(c) == /\ conf = c /\ disk = [A |-> 0, C |-> 0] /\ dbA = 0 /\ dbC = 0
+Fresh(c) == /\ conf = c /\ disk = (IF "disk0" \in DOMAIN c THEN c.disk0 ELSE [A |-> 0, C |-> 0]) /\ dbA = 0 /\ dbC = 0
             /\ loc4 = {} /\ loc6 = {} /\ c4 = {} /\ c6 = {} /\ locTag = <<0, 0>> /\ ctryTag = 0
             /\ ipc = <<>> /\ hostc = <<>> /\ heap = <<>> /\ rf = [r \in Refreshers |-> IdleRf] /\ snaps = {}
             /\ lastr = NoR /\ lastd = NoD /\ lasts = NoS /\ nput = 0 /\ nref = 0
 
-Init == (\E c \in MConfs : Fresh(c)) /\ hist = <<>>
+Init == LoadFiles /\ (\E c \in MConfs : Fresh(c)) /\ hist = <<>>
 
 -----------------------------------------------------------------------------
 (* caches *)
@@ -402,6 +410,18 @@ Next == \/ \E v \in conf.versA : PutFile("A", v)
         \/ \E p \in 1..Len(heap), fam \in {4, 6} : Subnet(heap[p].cur, p, fam)
 
 Spec == Init /\ [][Next]_vars
+
+\* the same actions with ONE randomly chosen parameter per kind of step (behaviour generation: the steps of a
+\* refresh are then taken about as often as look-ups)
+One(S) == IF S = {} THEN {} ELSE {RandomElement(S)}
+SimNext == \/ \E v \in One(conf.versA) : PutFile("A", v)
+           \/ \E v \in One(conf.versC) : PutFile("C", v)
+           \/ \E r \in Refreshers : RStart(r) \/ RSwapLoc(r) \/ RSwapCtry(r) \/ RJoin(r) \/ RSwapDB(r)
+           \/ Len(heap) < MaxData /\ \E h \in One(conf.hosts), a \in One(conf.addrs) : DataIP(h, a, 0, 0)
+           \/ \E h \in One(conf.hosts) : DataHost(h)
+           \/ \E l \in One(conf.locs), fam \in One({4, 6}) : Subnet(l, 0, fam)
+           \/ \E p \in One(1..Len(heap)), fam \in One({4, 6}) : Subnet(heap[p].cur, p, fam)
+SimSpec == Init /\ [][SimNext]_vars
 
 -----------------------------------------------------------------------------
 MapOK(m, fam) == \A e \in m : /\ Len(e.p.b) = FamLen(fam) /\ e.p.n >= 0 /\ e.p.n <= 8 * FamLen(fam)
